@@ -137,6 +137,8 @@ func applyAdjust(spec *rspec.Spec, adj *api.ContainerAdjustment) ([]string, erro
 	return cdi, err
 }
 
+func specJSON(s *rspec.Spec) string { b, _ := json.Marshal(s); return string(b) }
+
 func untouchedJSON(s *rspec.Spec) string {
 	cp := struct {
 		Version, Hostname string
@@ -356,6 +358,10 @@ func judgeC03(ex *execution, e *Expect, out *Verdict) {
 		}
 		if d := diffViews(viewOfSpec(again), viewOfSpec(lhs), nil); d != "" {
 			out.Fail = "applying the same combined adjustment twice gives different containers: " + d
+			return
+		}
+		if a, b := specJSON(again), specJSON(lhs); a != b {
+			out.Fail = "applying the same combined adjustment twice gives different specs (order of entries): " + a + " vs " + b
 			return
 		}
 	}
